@@ -366,6 +366,11 @@ def run(sess: Session):
                 sess.check(ob)
     for ob in is_lmf_obligations() + add_order_obligations():
         sess.check(ob)
+    for ob in required_attribute_obligations():
+        if isinstance(ob, tuple):
+            sess.unsupported(ob[1], ob[2])
+        else:
+            sess.check(ob)
     # table agreement: the real element table is the DTD inventory
     for v in lmfrt.VERSIONS:
         sess.check(Obligation(f'wn.lmf._VALID_ELEMS:{v}:inventory', PROP, 'static',
@@ -398,3 +403,167 @@ def bounded(sess: Session):
                      f'{sum(1 for r in out if r[2] == "valid")} valid variants and '
                      f'{sum(1 for r in out if r[2] == "fault")} single-fault mutations of generated documents, '
                      '4 versions', len(out), 'native execution + table dump', ok=not new)
+
+
+# ---- required identifying attributes: the _validate_* assertions -------------------------------------------------
+
+def free_record(alts, name, idx=(), absent=None, path=()):
+    """A record as the expat handlers may leave it: EVERY key optional (symbolic presence), string values, nested
+    lists of such records; Count elements carry `text` (not yet `value`). `absent`: (path, key) forced absent."""
+    import typing
+    from contracts.lmfrt import _is_td, _fn
+    hints = {}
+    for td in alts:
+        for k, v in typing.get_type_hints(td).items():
+            hints.setdefault(k, v)
+    rec = SRec(name)
+    rec.path = path
+    if any(td.__name__ == 'Count' for td in alts):
+        hints = {'text': str, 'meta': hints.get('meta')}
+    for k, tp in hints.items():
+        present = _fn(f'{name}.{k}.present', idx, z3.BoolSort())
+        if absent is not None and absent == (path, k):
+            present = False
+        rec.slots[k] = Slot(present, free_value(tp, f'{name}.{k}', idx, absent, path + (k,)))
+    return rec
+
+
+def free_value(tp, name, idx, absent, path):
+    import typing
+    from contracts.lmfrt import _is_td, _fn
+    origin = typing.get_origin(tp)
+    args = typing.get_args(tp)
+    if tp is None:
+        return None
+    if _is_td(tp) and tp.__name__ == 'Metadata':
+        return None
+    if origin is typing.Union:
+        nonnone = [a for a in args if a is not type(None)]
+        if any(_is_td(a) and a.__name__ == 'Metadata' for a in nonnone):
+            return None
+        if all(_is_td(a) for a in nonnone):
+            return free_record(nonnone, name, idx, absent, path)
+        return free_value(nonnone[0], name, idx, absent, path)
+    if origin is typing.Literal or tp is bool:
+        return SV('bool', z3.BoolVal(True)) if origin is typing.Literal else SV('str', _fn(name, idx, UStr))
+    if tp in (str, int, float):
+        return SV('str', _fn(name, idx, UStr))          # attributes are strings before validation
+    if origin is list:
+        elem_t = args[0]
+        if elem_t is str:
+            return SV('str', _fn(name, idx, UStr))      # IDREFS attribute, still one string
+
+        def make(pth, eidx, elem_t=elem_t):
+            return free_value(elem_t, pth, tuple(eidx), absent, path)
+        return SList(name, make, tuple(idx))
+    if _is_td(tp):
+        return free_record([tp], name, idx, absent, path)
+    raise Unsupported(f'free value of {tp!r}')
+
+
+# (path of keys from the lexicon to the element, attribute, applicability over the element record)
+def _not_external(rec):
+    s = rec.slots.get('external')
+    return z3.BoolVal(True) if s is None else z3.Not(z_bool(s.present))
+
+
+REQUIRED = [((), a, None) for a in ('id', 'version', 'label', 'language', 'email', 'license')] + [
+    (('requires',), 'id', None), (('requires',), 'version', None),
+    (('extends',), 'id', None), (('extends',), 'version', None),
+    (('entries',), 'id', None),
+    (('entries', 'lemma'), 'partOfSpeech', _not_external), (('entries', 'lemma'), 'writtenForm', _not_external),
+    (('entries', 'forms'), 'writtenForm', _not_external),
+    (('entries', 'lemma', 'tags'), 'category', None), (('entries', 'forms', 'tags'), 'category', None),
+    (('entries', 'senses'), 'id', None), (('entries', 'senses'), 'synset', _not_external),
+    (('entries', 'senses', 'relations'), 'target', None), (('entries', 'senses', 'relations'), 'relType', None),
+    (('entries', 'senses', 'counts'), 'text', None),
+    (('entries', 'frames'), 'subcategorizationFrame', None), (('frames',), 'subcategorizationFrame', None),
+    (('synsets',), 'id', None), (('synsets',), 'ili', _not_external),
+    (('synsets', 'relations'), 'target', None), (('synsets', 'relations'), 'relType', None),
+]
+
+
+def required_attribute_obligations() -> list:
+    obs = []
+    fname = 'wn.lmf._validate'
+    cm = dict(prop=PROP, functions=('wn.lmf._validate', 'wn.lmf._validate_lexicon', 'wn.lmf._validate_entries',
+                                    'wn.lmf._validate_forms', 'wn.lmf._validate_senses', 'wn.lmf._validate_frames',
+                                    'wn.lmf._validate_synsets'), source=source_span(lmf._validate),
+              assumptions_used=())
+    for path, attr, cond in REQUIRED:
+        tag = f"{fname}:required:{'/'.join(path) or 'lexicon'}@{attr}"
+
+        def run(it, path=path, attr=attr):
+            L = free_record([lmf.Lexicon, lmf.LexiconExtension], 'L', (), absent=(path, attr))
+            r = it.call(lmf._validate, [L], {})
+            return L
+        try:
+            outs = explore(run, contracts=lmfrt.make_contracts([], [], set()), packages=lmfrt.PACKAGES,
+                           options=lmfrt.OPT)
+        except Unsupported as exc:
+            obs.append(('unsupported', tag, str(exc)))
+            continue
+        list_keys = [k for k in path if k in ('requires', 'entries', 'forms', 'tags', 'senses', 'relations', 'counts',
+                                              'frames', 'synsets')]
+        for n, o in enumerate(outs):
+            if o.kind == 'raise':
+                continue                                     # rejected on this path
+            L = o.value
+            # binders of the loops over the lists on the path (as created by the validator's own loops)
+            want_names = []
+            cur = 'L'
+            for k in path:
+                cur = cur + '.' + k
+                if k in list_keys:
+                    want_names.append(cur)
+            entries = []
+            for mr in o.may_raise:
+                binders = mr[4] if len(mr) > 4 else []
+                names = [b.key[1] for b in binders if getattr(b, 'key', None) and b.key[0] == 'list']
+                if names == want_names:
+                    entries.append(mr)
+            if not want_names:
+                # a required attribute of a single element (lexicon, extends, lemma): the path must not return
+                rec, exists = _element(L, path, [])
+                g = z3.Not(z_and(exists, cond(rec) if cond else True))
+                obs.append(Obligation(f'{tag}:p{n}', kind='post', assumptions=list(o.pc) + lit_axioms(), goal=g,
+                                      detail=f'_validate returns although {"/".join(path) or "Lexicon"}@{attr} is missing',
+                                      **cm))
+                continue
+            if not entries:
+                obs.append(Obligation(f'{tag}:p{n}', kind='post', decided=False,
+                                      detail=f'no assertion guards elements at {"/".join(path)}', **cm))
+                continue
+            binders = entries[0][4]
+            rec, exists = _element(L, path, binders)
+            B = [b.constraint for b in binders]
+            npc = len(o.pc)
+            fails = z_or(*[z_and(*mr[1][npc:]) for mr in entries])
+            # also assertions of enclosing loops may fire first (an outer element invalid): they reject as well
+            outer = [mr for mr in o.may_raise if mr not in entries and
+                     all(any(b is bb for bb in binders) for b in (mr[4] if len(mr) > 4 else []))]
+            fails = z_or(fails, *[z_and(*mr[1][npc:]) for mr in outer])
+            hyp = z_and(*B, exists, cond(rec) if cond else True)
+            obs.append(Obligation(f'{tag}:p{n}', kind='post', assumptions=list(o.pc) + lit_axioms(),
+                                  goal=z3.Implies(z_bool(hyp), z_bool(fails)),
+                                  detail=f'an element at {"/".join(path)} without `{attr}` makes an assertion of the '
+                                         f'validator fail (the document is rejected)', **cm))
+    return obs
+
+
+def _element(L, path, binders):
+    """The record at `path` for the given loop binders and the condition that it exists."""
+    cur = L
+    exists = []
+    bi = 0
+    for k in path:
+        slot = cur.slots.get(k)
+        exists.append(z_bool(slot.present))
+        v = slot.value
+        if isinstance(v, SList):
+            b = binders[bi]
+            bi += 1
+            cur = v.at(b.var)
+        else:
+            cur = v
+    return cur, z_and(*exists)
